@@ -316,6 +316,15 @@ BENIGN += [
      "#[derive(Debug)]\npub struct Bvd {\n    data: Box<[u64]>,\n    length: usize,\n}\n\nimpl Clone for Bvd {\n    fn clone(&self) -> Self {\n        Bvd {\n            data: self.data[..Self::capacity_from_bit_len(self.length)].into(),\n            length: self.length,\n        }\n    }\n}"),
 ]
 
+BENIGN += [
+    ("B13-first-last-via-is-empty", "src/lib.rs",
+     "    fn first(&self) -> Option<Bit> {\n        if self.len() > 0 {\n            Some(self.get(0))\n        } else {\n            None\n        }\n    }",
+     "    fn first(&self) -> Option<Bit> {\n        if self.is_empty() {\n            None\n        } else {\n            Some(self.get(0))\n        }\n    }"),
+    ("B14-bvf-hash-trims-zero-words-of-raw-storage", "src/fixed.rs",
+     "        for i in 0..Self::capacity_from_bit_len(self.significant_bits()) {\n            self.data[i].hash(state);\n        }",
+     "        let words = self\n            .data\n            .iter()\n            .rposition(|d| *d != I::ZERO)\n            .map_or(0, |p| p + 1);\n        for i in 0..words {\n            self.data[i].hash(state);\n        }"),
+]
+
 ALL_PIDS = ["C01", "C02", "C03", "C04", "C05", "C07", "C08", "C09", "C10", "C11", "C12", "C13", "C15", "C17", "C18", "C19", "C20"]
 
 
